@@ -166,6 +166,9 @@ def reduced_index(t):
         t = T.strip(t[2])
     if t[0] == "binop" and t[1] == "Rem":
         return (t[2], t[3], None)
+    # `x % n` with n: NonZero<_> is the operator trait `Rem<NonZero<usize>> for usize` (it cannot divide by zero)
+    if t[0] == "call" and "ops::Rem<" in t[1] and t[1].endswith("::rem") and len(t[2]) == 2:
+        return (t[2][0], t[2][1], None)
 
     def rem_payload(x):
         x = T.strip(x)
